@@ -9,7 +9,7 @@ import (
 
 // C19: keep-alive in virtual time.
 func C19(c *core.Ctx) {
-	c.Rep.Bound = "SCHED: two overlapping handshakes with one client id and keep-alives 1 s / 60 s, every schedule deviating from the default at <= 2 (quick) / 3 (thorough) points; back-pressure: 24 timed scenarios in which the client keeps sending while the broker cannot take its packets (a subscriber that does not read); HIST over timed histories in virtual time: keep-alive K in {1,2,10} s; actions advance(0.4K / 0.9K / 1.3K / 1.6K), PINGREQ, PUBLISH, first byte of a packet then its second byte; will configured, witness subscribed to '#'; every sequence (no de-duplication) to depth 5 (quick) / 6 (thorough); a second alphabet with PUBLISH packets of exactly 8192 and 8191 bytes (the receiver's read block) and a packet that is never completed (fixed header and part of the body); a third alphabet with advances of 0.05K / 0.25K / 0.97K"
+	c.Rep.Bound = "SCHED: two overlapping handshakes with one client id and keep-alives 1 s / 60 s, every schedule deviating from the default at <= 2 (quick) / 3 (thorough) points; back-pressure: 24 timed scenarios in which the client keeps sending while the broker cannot take its packets (a subscriber that does not read); HIST over timed histories in virtual time: keep-alive K in {1,2,10} s; actions advance(0.4K / 0.9K / 1.3K / 1.6K), PINGREQ, PUBLISH, first byte of a packet then its second byte; will configured, witness subscribed to '#'; every sequence (no de-duplication) to depth 5 (quick) / 6 (thorough); a second alphabet with PUBLISH packets of exactly 8192 and 8191 bytes (the receiver's read block) and a packet that is never completed (fixed header and part of the body); a third alphabet with advances of 0.05K / 0.25K / 0.97K; silence in the middle of a large PUBLISH (5 announced sizes around the packet limit of the ring x 3 cut points)"
 	c.Rep.Rule = "the connection must be open and every PINGREQ answered while all gaps between client transmissions are < K; it must be closed and its will published once a gap exceeds 1.5 K; in between either; no wall-clock time is involved: the clock moves only by the advance actions; non-trivial = histories in which the connection is dropped"
 	ks := []int{1, 2, 10}
 	for _, k := range ks {
@@ -140,6 +140,10 @@ func C19(c *core.Ctx) {
 		return
 	}
 	c19silentFull(c)
+	if c.HasViolation() || c.Expired() {
+		return
+	}
+	c19partialLarge(c)
 	if c.HasViolation() || c.Expired() {
 		return
 	}
